@@ -9,7 +9,7 @@ from ..runner import Part
 
 PROPERTY = 'C17'
 LEVEL = 'exploration'
-RULE = ('keys (chosen so that both values of the top bit of n0inv occur): k deterministic 2048-bit keys from a seeded Miller-Rabin prime search (written as PKCS#8 PEM) + k fresh keygen() keys, every key written to disk and re-loaded through '
+RULE = ('keys (chosen so that both values of the top bit of n0inv occur; one with public exponent 3; file names with dots, one pair named like another plus a suffix): k deterministic 2048-bit keys from a seeded Miller-Rabin prime search (written as PKCS#8 PEM) + k fresh keygen() keys, every key written to disk and re-loaded through '
         'write_public_keyfile / the signer constructors; tokens: all-zero, all-0xff, the 20 single-byte-set and 160 single-bit-set tokens, tokens with 1..19 leading zero bytes, seeded random ones, and per key two tokens whose correct signature starts with a zero byte (found with the reference computation) '
         'ones (~230 shapes); signers: CryptographySigner, PycryptodomeAuthSigner, PythonRSASigner; a history in which the key pair at one path is regenerated and re-loaded three times in one process; oracle: pure-integer RSA check s^e mod n == 00 01 FF..FF 00 || DER(SHA-1 DigestInfo) || token, '
         'cryptography\'s verifier with Prehashed(SHA1), equality of the three signers\' outputs (PKCS#1 v1.5 is deterministic), and an independent decoder of the 524-byte Android RSAPublicKey '
@@ -44,17 +44,16 @@ def is_prime(n, rnd):
     return True
 
 
-def seeded_key(seed, path):
+def seeded_key(seed, path, e=65537):
     """Deterministic 2048-bit RSA key -> PKCS#8 PEM at path (+ .pub through the library)."""
     from cryptography.hazmat.primitives import serialization
     from cryptography.hazmat.primitives.asymmetric import rsa
     rnd = random.Random('c17/%d/%d' % (common.SEED, seed))
-    e = 65537
 
     def prime():
         while True:
             c = rnd.getrandbits(1024) | (3 << 1022) | 1
-            if c % e != 1 and is_prime(c, rnd):
+            if (c - 1) % e != 0 and is_prime(c, rnd):
                 return c
     p, q = prime(), prime()
     while p == q:
@@ -256,6 +255,9 @@ def parts(tier):
         p = os.path.join(base, 'seeded%d' % i)
         seeded_key(i, p)
         keys.append(p)
+    p3 = os.path.join(base, 'exp3.key')            # public exponent 3 (adbd accepts 3 and 65537); a dotted file name
+    seeded_key(1000, p3, e=3)
+    keys.append(p3)
     from adb_shell.auth.keygen import keygen
 
     def top_bit(path):
@@ -265,6 +267,9 @@ def parts(tier):
         p = os.path.join(base, 'fresh%d' % i)
         keygen(p)
         keys.append(p)
+    pd = os.path.join(base, 'fresh0.v2')           # a second pair next to fresh0 / fresh0.pub whose name only adds a suffix
+    keygen(pd)
+    keys.append(pd)
     # both values of the top bit of n0inv must occur among the keys (an inverse computed modulo 2^31 is right for half of all keys)
     extra = 0
     while len({top_bit(p) for p in keys}) < 2 and extra < 12:
